@@ -95,6 +95,9 @@ pub struct Tree {
     pub dirs: BTreeSet<String>,
     /// directories whose listing fails
     pub bad_dirs: BTreeMap<String, IoKind>,
+    /// directory listings come in an arbitrary (but fixed) order, like a real file system's: a permutation keyed by this seed
+    #[serde(default)]
+    pub order_seed: u64,
 }
 pub fn fkey(id: &str, ext: &str) -> String {
     format!("{id}/{ext}")
@@ -137,6 +140,10 @@ impl Tree {
             if parent_id(x) == Some(d) {
                 out.push((true, x.clone(), String::new()));
             }
+        }
+        if self.order_seed != 0 {
+            let seed = self.order_seed;
+            out.sort_by_key(|(dir, id, ext)| detsim::mix(seed, crate::common::fnv(format!("{dir}{id}/{ext}").as_bytes())));
         }
         out
     }
